@@ -16,6 +16,7 @@ META = {
         'R2': 'the face normal is the outward one: VoronoiFace::normal() == -1 * (normal of the plane the face was created for), hence (R-L)/|R-L| resp. outward through the wall',
         'R3': 'area/centroid weights: both face accumulators add signed_area_tri(v0,v1,v2,gen) to the area and area*(v0+v1+v2) to the centroid, and normalise by 1/(3*area) exactly when area > 0 (else 0); '
               'the accessor returns those fields',
+        'R5': 'translation conditioning of the area kernels (C02.R5 restricted to signed_area_tri and the face accumulators)',
         'R4': 'grouping: a triangle contributes to the face whose plane index is the tetrahedron\'s plane_idx (C03.R6)',
     },
     'explanation': 'Decides sign, unit length and provenance of face normals as identities of normal forms, and the weights with which triangle areas and centroids are '
@@ -30,7 +31,7 @@ def run(ctx):
     for cfg in ctx.configs_used:
         F = ctx.facts(cfg)
         sfx = '' if cfg == 'default' else '@' + cfg
-        for fn in (r1, r2, r3, r4):
+        for fn in (r1, r2, r3, r4, r5):
             rule = 'C04.' + fn.__name__.upper()
             ctx.guarded(rule, 'evaluate' + sfx, lambda: fn(ctx, F, rule, sfx))
 
@@ -212,3 +213,7 @@ def r3(ctx, F, rule, sfx):
 
 def r4(ctx, F, rule, sfx):
     c03.r6(ctx, F, rule, sfx)
+
+
+def r5(ctx, F, rule, sfx):
+    c02.r5(ctx, F, rule, sfx, only=lambda n: 'area' in n.lower() or 'Face' in n or 'Area' in n)
